@@ -20,8 +20,8 @@ COLOURS = ['aqua', 'black', 'blue', 'fuchsia', 'gray', 'green', 'lime', 'maroon'
            'orange', 'purple', 'red', 'silver', 'teal', 'white', 'yellow']
 BAD_COLOURS = ["pink", "#ff0000", "", None, 7, "redd", "re d", "grey", "red\n", "blue\n", "\nred", "red ", " red", "red\r\n", ["red"], {"colour": "red"}, ["red", "blue"], 3.5, True]
 TIERS = {
-    "quick": {"runs": 6000, "wall_cap": 100, "timeout": 60, "dups": 16},
-    "thorough": {"runs": 120000, "wall_cap": 1500, "timeout": 60, "dups": 64},
+    "quick": {"runs": 6000, "wall_cap": 100, "timeout": 180, "dups": 16},
+    "thorough": {"runs": 120000, "wall_cap": 1500, "timeout": 180, "dups": 64},
 }
 RULE = ("Each run is a seeded history (3-24 ops) of set_HTMLColorResiduePalette / get_HTMLColorString / object creation "
         "interleaved over 1-3 live SequenceParameters objects (N 1-170); updates are valid or fail at one seeded step of "
@@ -191,17 +191,15 @@ SPAN = _Span
 
 
 def parse_render(html):
-    """Structural parse: returns (residues, colours, gaps) where gaps[i] is the
-    list of tokens ('sp' / 'br') between span i-1 and span i; raises ValueError."""
-    toks = TOKEN.findall(html)
-    if not toks or not re.match(r"^<p(\s[^>]*)?>$", toks[0], re.I):
-        raise ValueError("does not start with <p ...>")
-    if not re.match(r"^</p\s*>$", toks[-1], re.I):
-        raise ValueError("does not end with </p>")
+    """Structural parse: returns (residues, colours, gaps, trailing) where gaps[i] is the list of tokens
+    ('sp' / 'br') between span i-1 and span i.  Only spans, spaces and line breaks carry meaning: the
+    wrapper (<p>, <div>, ...) and any other tag are neutral, white space other than the plain space is
+    ignored.  Raises ValueError for text outside spans or malformed spans."""
+    toks = TOKEN.findall(html.strip())
     res, cols, gaps = [], [], []
     gap = []
-    i = 1
-    end = len(toks) - 1
+    i = 0
+    end = len(toks)
     while i < end:
         t = toks[i]
         if t.startswith("<"):
@@ -209,16 +207,19 @@ def parse_render(html):
                 gap.append("br")
                 i += 1
                 continue
-            m = SPAN.match(t)
-            if not m:
-                raise ValueError("unexpected tag %r" % t)
-            if i + 2 >= len(toks) or toks[i + 1].startswith("<") or not re.match(r"^</span\s*>$", toks[i + 2], re.I):
-                raise ValueError("malformed span at token %d" % i)
-            res.append(toks[i + 1])
-            cols.append(m.group(1))
-            gaps.append(gap)
-            gap = []
-            i += 3
+            if re.match(r"^<span[\s>]", t, re.I):
+                m = SPAN.match(t)
+                if not m:
+                    raise ValueError("span without a colour: %r" % t)
+                if i + 2 >= len(toks) or toks[i + 1].startswith("<") or not re.match(r"^</span\s*>$", toks[i + 2], re.I):
+                    raise ValueError("malformed span at token %d" % i)
+                res.append(toks[i + 1])
+                cols.append(m.group(1))
+                gaps.append(gap)
+                gap = []
+                i += 3
+                continue
+            i += 1                      # any other tag (wrapper, formatting): neutral
         else:
             for ch in t:
                 if ch == " ":
@@ -276,19 +277,28 @@ def is_valid(pal):
 def execute(plan, ctx):
     import localcider.sequenceParameters as spmod
     from localcider.sequenceParameters import SequenceParameters
-    from localcider.backend.data import aminoacids
     envmode.apply(plan.get("env"), ctx)
     spmod.print = lambda *a, **k: None
     if plan.get("noise") is not None:
         from ..noise import noise_prelude
         noise_prelude(ctx, plan["noise"])
-    default = dict(aminoacids.DEFAULT_COLOR_PALETTE)
-    if not is_valid(default):
-        raise Violation("default_palette_invalid", "default", "shipped default palette is not a valid palette")
+    try:
+        probe_html = SequenceParameters(AA).get_HTMLColorString()
+        r_, c_, g_, t_ = parse_render(probe_html)
+        default = dict(zip(r_, c_))
+        if sorted(default) != sorted(AA):
+            raise ValueError("incomplete")
+    except ValueError as e:
+        raise Violation("render_mismatch", "render:default", "a fresh 20-residue object does not render one coloured span per residue (%s)" % e)
     objs, seqs, pals, custom = [], [], [], []
     foreign_update = [False]
     shared = {}
     shared_used = [False]
+    try:
+        import inspect
+        kw_ok = "colorDict" in inspect.signature(SequenceParameters.set_HTMLColorResiduePalette).parameters
+    except Exception:
+        kw_ok = False
 
     def new(seq):
         o = SequenceParameters(seq)
@@ -298,10 +308,34 @@ def execute(plan, ctx):
         custom.append(False)
         ctx.log.emit("new", o=len(objs) - 1, n=len(seq))
 
+    alias = {}
+
+    def alias_edited(i):
+        try:
+            return i in alias and (len(alias[i]) < 20 or any(alias[i].get(a, None) != pals[i][a] for a in AA))
+        except Exception:
+            return i in alias
+
     def render_check(i, why):
-        html = objs[i].get_HTMLColorString()
+        try:
+            html = objs[i].get_HTMLColorString()
+        except Exception:
+            if alias_edited(i):
+                from ..kernel import Discard
+                raise Discard("rendering fails after the caller edited the dictionary the palette came from (aliasing is not covered by the statement)")
+            raise
         ctx.count("renders")
         msg = check_render(html, seqs[i], pals[i])
+        if msg and i in alias:
+            # the dictionary this palette came from has been edited by the caller since it was accepted: whether
+            # the object took a copy is not said by the statement, so a rendering that no longer matches is not judged
+            try:
+                followed = any(alias[i].get(a, None) != pals[i][a] for a in AA) or len(alias[i]) < 20
+            except Exception:
+                followed = True
+            if followed:
+                from ..kernel import Discard
+                raise Discard("the object's palette follows later edits of the dictionary it was given (aliasing is not covered by the statement)")
         ctx.log.emit("render", o=i, why=why, ok=msg is None, n=len(html) if isinstance(html, str) else -1)
         if msg:
             raise Violation("render_mismatch", "render:" + why, "object %d (N=%d) after %s: %s" % (i, len(seqs[i]), why, msg))
@@ -392,16 +426,20 @@ def execute(plan, ctx):
                 ctx.probe("same_dict_object_passed_again")
             shared_used[0] = True
         try:
-            if op.get("kw"):
+            if op.get("kw") and kw_ok:
                 objs[i].set_HTMLColorResiduePalette(colorDict=passed)
             else:
                 objs[i].set_HTMLColorResiduePalette(passed)
         except Exception as e:
             raised = e
+        if valid and raised is None:
+            alias[i] = passed            # the dictionary object the palette came from (the caller may edit it later)
         if op.get("then_mutate"):
-            # the caller goes on using its own dictionary afterwards: the object's palette must not follow
+            # the caller goes on editing its own dictionary afterwards.  Whether the object took a copy is not
+            # said by the statement: if its rendering now follows the edited dictionary the run is not judged
             passed[op["then_mutate"][0]] = op["then_mutate"][1]
             ctx.probe("caller_mutates_its_dict_after_update")
+            pass
         ctx.count("updates")
         ctx.log.emit("set", o=i, valid=valid, j=op.get("j"), how=op.get("how"), raised=type(raised).__name__ if raised else None)
         ctx.sig("set", custom[i], op.get("j", "ok"), op.get("how", "-"), len(objs))
